@@ -309,8 +309,11 @@ def gen_case(item, rng, tier):
             events.append({'tick': t, 'core': 0, 'kind': 'fiq'})
         elif k < 0.43:
             events.append({'tick': t, 'core': 0, 'kind': 'reset'})
-        elif k < 0.45:
+        elif k < 0.44:
             events.append({'tick': t, 'core': 0, 'kind': 'regswap'})
+        elif k < 0.45:
+            if not any(e['kind'] == 'unmap' for e in events):
+                events.append({'tick': t, 'core': 0, 'kind': 'unmap', 'keep': rng.choice([3, 3, 2, 4])})
         else:
             events.append({'tick': t, 'core': 0, 'kind': 'regime', 'regs': regime(rng, cfg)})
     events.sort(key=lambda e: e['tick'])
